@@ -28,3 +28,11 @@ Proof.
   split; [exact (first_results_prefix count arrivals) | exact (first_results_all arrivals)].
 Qed.
 Print Assumptions C16_first_yields_prefix_in_arrival_order_partial.
+
+(** (A) the tie to /repo's current source: every function this property's models were transcribed from has, in the
+    tree this run is checking, the normalised source it had when the models were validated (hashes regenerated from
+    /repo into gen/Generated.v on every run; pins in gen/SourcePins.v).  A change to one of them invalidates the
+    transcription until it is re-validated. *)
+From UsimGen Require SourcePins Pin_C16.
+Theorem C16_modelled_source_unchanged : forallb SourcePins.pin_ok Pin_C16.pins = true.
+Proof. exact Pin_C16.src_unchanged. Qed.
